@@ -155,10 +155,13 @@ pub fn run_tls(m: &TlsMaterial, c: &TlsCase) -> Result<TlsObs, String> {
             Outcome::Panic { file, line, msg }
         }
     };
-    let world = match Rc::try_unwrap(world) {
+    let mut world = match Rc::try_unwrap(world) {
         Ok(c) => c.into_inner(),
         Err(_) => return Err("tls world still shared after the run".into()),
     };
+    if matches!(outcome, Outcome::Io { .. } | Outcome::Token(_)) {
+        world.deliver_at_close();
+    }
     let log = std::mem::take(&mut *log.borrow_mut());
     Ok(TlsObs { outcome, world, log })
 }
@@ -505,6 +508,49 @@ pub fn run(ctx: &Ctx) -> Report {
     rep.rule = "cases = real TLS connections (rustls client inside the transport): first read cut at every offset 0..(36 + |ClientHello| + 10), later read sizes {1,2,3,5,16,64,random,inf}, write limits {inf,1000,1}, TLS 1.2 and 1.3, with/without client certificate (verifier optional / required / none), 0-10 commands incl. PREPARE/EXECUTE with rows, stream ended by close_notify or QUIT; plus TLS requested from a shim that offers none; a class is a (cut class, read-size class, TLS version, client cert, write limit) tuple; non-trivial = the TLS handshake completed against the real server and the decrypted conversation was compared with the plaintext run of the same script".into();
     if ctx.miri {
         rep.inconclusive.push("C18 cannot run under Miri (native crypto)".into());
+        return rep;
+    }
+    // ---- the property's last sentence, with scripted bytes (no TLS library needed on either side, so
+    //      this group also runs against the library built WITHOUT its `tls` feature, whose refusal is
+    //      code of its own): a client that asks for TLS from a shim that offers none is refused with
+    //      an error, after_authentication is never called, nothing behind the request is served
+    let n = ctx.n(600, 20_000);
+    let r = par_cases(ctx, "C18", "requested-not-offered", n, |rng, i, rep| {
+        let (case, label) = ssl_refusal_case(rng, i);
+        let o = run_case(&case);
+        rep.evaluations += 1;
+        rep.counters.class(label.clone());
+        let d = || ssl_refusal_detail(&case, &o, &label);
+        if i < 2 {
+            rep.sample(d());
+        }
+        if harness_panic(&o, rep) {
+            return;
+        }
+        if let Outcome::Panic { file, line, msg } = &o.outcome {
+            rep.violations.push(viol("C18", format!("C18 refusal {}", panic_signature(file, *line, msg)), format!("the server panicked on a TLS request it cannot serve: {}", o.outcome.describe()), d()));
+            return;
+        }
+        if o.log.cbs.iter().any(|c| matches!(c.kind, CbKind::Auth { .. })) {
+            rep.violations.push(viol("C18", "C18 auth-called-despite-refusal".into(), "after_authentication was called although the client asked for TLS and the shim offers none".into(), d()));
+            return;
+        }
+        if let Some(c) = o.log.cbs.first() {
+            rep.violations.push(viol("C18", "C18 served-despite-refusal".into(), format!("{} reached the shim although the connection had to be refused", cb_summary(c)), d()));
+            return;
+        }
+        if !o.outcome.is_err() {
+            rep.violations.push(viol("C18", "C18 tls-request-not-refused".into(), format!("a client asked for TLS from a shim that offers none and run_on returned {}", o.outcome.describe()), d()));
+            return;
+        }
+        rep.counters.inc("scripted_refusals_checked");
+    });
+    rep.merge(r);
+    if ctx.strict() {
+        rep.require("scripted_refusals_checked", 100);
+    }
+    if cfg!(not(feature = "tls")) {
+        rep.notes.push("built without the library's tls feature: only the refusal of a TLS request can be decided in this build; everything else of C18 is decided by the passes built with the feature".into());
         return rep;
     }
     let m = match TlsMaterial::generate() {
